@@ -118,6 +118,9 @@ protected:
          * try to close again in the I/O callbacks.
          */
         bool try_closing;
+        /// write() gave up on an entry that outgrew the cache_dir max-size: the
+        /// swap file is incomplete, so the close callback must report an error
+        bool abandoned;
     } flags;
 
     bool kickReadQueue();
